@@ -45,7 +45,8 @@ I(names, src, t) == [k |-> "i", names |-> names, src |-> src, lead |-> t.lead, e
 VARIABLES doc, cursor, count
 vars == <<doc, cursor, count>>
 
-CONSTANTS LitSet      \* which literal palette this model uses
+CONSTANTS LitSet,     \* which literal palette this model uses
+          GapSet      \* which let-gap trivia variants the skeletons range over (all of LetGaps, or {"none"} for two-part documents)
 \* layers: number of directly nested let blocks around the set; inc: an own-line comment follows every `in'
 \* gap: own-line comments (with single blank lines) in the keyword-delimited gaps of the let blocks and of the head:
 \*   "before_in"  a blank line and a comment between the last binding and `in'
@@ -53,11 +54,12 @@ CONSTANTS LitSet      \* which literal palette this model uses
 \*   "after_let"  a comment between `let' and the first binding
 \*   "blank_after_in"  a blank line and a comment between `in' (or `with ..;' / `assert ..;') and what follows
 LetGaps == {"none", "before_in", "two_before_in", "after_let", "blank_after_in"}
+NoGaps == {"none"}
 Skel(h, l, c, g, r) == [head |-> h, layers |-> l, inc |-> c, gap |-> g, rec |-> r, items |-> <<>>, foot |-> FALSE]
 Skeletons == {Skel(h, 0, FALSE, "none", FALSE) : h \in Heads}
              \cup {Skel(h, 0, FALSE, "blank_after_in", FALSE) : h \in {"with", "assert"}}
              \cup {Skel(h, l, TRUE, "none", r) : h \in {"none", "lam_formals_ml", "lam_id"}, l \in {1, 2, 3}, r \in BOOLEAN}
-             \cup {Skel(h, l, FALSE, g, r) : h \in {"none", "lam_formals_ml", "lam_id"}, l \in {1, 2, 3}, g \in LetGaps, r \in BOOLEAN}
+             \cup {Skel(h, l, FALSE, g, r) : h \in {"none", "lam_formals_ml", "lam_id"}, l \in {1, 2, 3}, g \in GapSet, r \in BOOLEAN}
 Init == /\ doc \in Skeletons
         /\ cursor = <<>> /\ count = 0
 
